@@ -20,6 +20,8 @@ from ..xplore import h64
 from ..gen import certs as G
 
 ABSENT = "<absent>"
+# names that are not strings, and names that collide after str() or as dictionary keys
+NAME_SETS = [[7, 8, 9, 10, 11], [7, 0.5, None, True, False], [7, "7", 1, True, 1.0], [None, "None", "null", 0, False]]
 KINDS = [("x509_pem", "p256"), ("x509_pem", "p384"), ("x509_pem", "k1"), ("sgx_attestation_key", "p256"),
          ("sgx_quote", "p256")]
 ROOTS = {1: "root", 2: "sgx_root"}
@@ -131,8 +133,8 @@ class C16(Check):
         "construction (really signed, finite paths, well-formed fields) must load through the entry "
         "point the tools use, HSMCertificate.from_jsonfile, which is also what save/load goes through",
         "step budget: 4*10^4 executed lines of middleware code per call (load, to_dict, validate, "
-        "save; the longest legitimate call on 12 elements executes about 7.8*10^3) with a 30 s "
-        "wall-clock alarm behind it; the first exhausted budget ends its case, the sixth ends the run",
+        "save; the longest legitimate call on 12 elements executes about 7.8*10^3), 3 s of CPU time per "
+        "call (loops inside extension code execute no line) and a 30 s wall-clock alarm behind them; the first exhausted budget ends its case, the sixth ends the run",
         "roots of trust for validation: the generator's secp256k1 root key / root certificate with "
         "the clock fixed inside every generated validity period; the process time zone is UTC, UTC-3 "
         "or UTC+5:30 in turn",
@@ -163,7 +165,7 @@ class C16(Check):
     def bounds(self):
         return {"clock": "owned" if self.impl.owned else "not owned: validity periods around the real present",
                 "max_elements_all_functions": self.nmax, "rule_built_elements": 12,
-                "step_budget_lines": 40000, "wall_backstop_s": 30}
+                "step_budget_lines": 40000, "cpu_budget_s": 3, "wall_backstop_s": 30}
 
     def alphabets(self):
         return {"signed_by": ["<element i>", "<root>", "nobody", 7],
@@ -178,6 +180,13 @@ class C16(Check):
                 plen = max(0, n - 1) if n >= 3 else 0
                 for first in itertools.product(range(n + 3), repeat=plen):
                     cs.append({"kind": "graph", "ver": ver, "pat": pat, "n": n, "first": list(first)})
+                    # all elements with NON-STRING names (and names that collide after str() / as keys)
+                    if ver == 2 and n <= self.nmax - 1:
+                        for ns in range(len(NAME_SETS)):
+                            if n >= 3 and not self.thorough and ns not in (1, 2):
+                                continue
+                            cs.append({"kind": "graph", "ver": ver, "pat": pat, "n": n,
+                                       "first": list(first), "nameset": ns})
                     # one element NAMED like the root sentinel of the version / with the empty name
                     if n <= (self.nmax - 1 if ver == 2 else 2):
                         for i in range(n):
@@ -343,8 +352,11 @@ class C16(Check):
         rename = case.get("rename")
         if rename:
             names[rename[0]] = rename[1]
+        if case.get("nameset") is not None:
+            names = list(NAME_SETS[case["nameset"]][:n])
+            rename = rename or [0, "non-string"]
         opts = names + [ROOTS[ver], "nobody", 7]
-        if n == 4 and case.get("rename"):
+        if n == 4 and (case.get("rename") or case.get("nameset") is not None):
             tsets = [(i,) for i in range(n)] + [tuple(range(n))]
         elif n <= 3 or (n == 4 and self.thorough):
             tsets = [c for r in range(1, n + 1) for c in itertools.combinations(range(n), r)]
@@ -353,7 +365,9 @@ class C16(Check):
         else:
             tsets = [(i,) for i in range(n)] + [tuple(range(n))]
         label = "graph:v%d:%s:n%d" % (ver, pat, n)
-        if rename:
+        if case.get("nameset") is not None:
+            label += ":non-string-names"
+        elif rename:
             label += ":named-like-root" if rename[1] else ":empty-name"
         for rest in itertools.product(range(n + 3), repeat=n - len(first)):
             f = list(first) + list(rest)
@@ -495,6 +509,27 @@ class C16(Check):
                         d["elements"][i][fld] = fn(e[fld])
                         d["targets"] = list(targets)
                         self.genuine_eval(d, "special:v1:hex-spelling", stats, vs)
+        # spelled fields of realistic length with one defect: loading must still terminate (with an
+        # error, or with a certificate); and every binary field followed / preceded by stray bytes
+        defects = (lambda h: h + "g", lambda h: h + "a", lambda h: h[:len(h) // 2] + "x" + h[len(h) // 2:],
+                   lambda h: h + " g", lambda h: "g" + h, lambda h: h + " 0")
+        for bdoc in (b1, base):
+            for i, e in enumerate(bdoc["elements"]):
+                if e.get("type") == "x509_pem":
+                    continue
+                for fld in ("message", "custom_data", "key", "auth_data", "signature", "tweak"):
+                    if fld not in e:
+                        continue
+                    for sp, fn in list(G.HEX_SPELLINGS.items()) + [("plain", lambda h: h)]:
+                        for df in defects:
+                            d = G.clone(bdoc)
+                            d["elements"][i][fld] = df(fn(e[fld]))
+                            self.evaluate(json.dumps(d), "special:v%d:defective-spelling" % bdoc["version"],
+                                          stats, vs)
+                    for lab, nb in G.extra_bytes_variants(bytes.fromhex(e[fld])):
+                        d = G.clone(bdoc)
+                        d["elements"][i][fld] = nb.hex()
+                        self.genuine_eval(d, "special:v%d:extra-bytes" % bdoc["version"], stats, vs)
         # version 1: tweak whose HMAC with the certifier key starts with one / two zero bytes
         w1 = self.w1
         for nz in (1, 2):
@@ -548,6 +583,8 @@ class C16(Check):
         for label, d, _ in G.reserved_name_docs(self.w2):
             out.append(("names:v2:" + label, d))
         for label, d in G.zero_value_docs(self.w2):
+            out.append(("names:v2:" + label, d))
+        for label, d in G.displaced_binding_docs(self.w2, offsets=(1, 7, 16, 31, 32)):
             out.append(("names:v2:" + label, d))
         return out
 
